@@ -79,7 +79,7 @@ func (s *Solver) start() error {
 	s.script = s.script[:0]
 	s.send("(set-option :print-success false)\n")
 	if strings.Contains(s.argv[0], "z3") {
-		s.send("(set-option :timeout 10000)\n")
+		s.send("(set-option :timeout 30000)\n")
 	}
 	s.dead = false
 	return nil
@@ -168,6 +168,12 @@ func (s *Solver) Check(kind string) string {
 	s.stats.Time += d
 	if d > s.stats.MaxTime {
 		s.stats.MaxTime = d
+	}
+	if d > time.Second && os.Getenv("SYMGO_DUMP_SLOW") != "" {
+		save, lim := s.dumpDir, s.dumpLimit
+		s.dumpDir, s.dumpLimit = os.Getenv("SYMGO_DUMP_SLOW"), 1000
+		s.Dump("slow-" + res)
+		s.dumpDir, s.dumpLimit = save, lim
 	}
 	switch res {
 	case "sat":
